@@ -27,6 +27,12 @@ Inductive sval := SStr (p : ptr) | SNum (z : Z).      (* contents of a scalar's 
 (* variable / function names: 10 * k + type code; type code 3 = string, 2/4/8 = integer/single/double *)
 Definition nty (n : Z) : Z := n mod 10.
 Definition is_strname (n : Z) : bool := nty n =? 3.
+(* a name written without a sigil (type code 0) gets the default type of its first letter (DataSegment.complete_name) *)
+Fixpoint deftype_of (k : Z) (d : list (Z * (Z * Z))) : Z :=
+  match d with
+  | [] => 4
+  | (lo, (hi, t)) :: r => if (lo <=? k) && (k <=? hi) then t else deftype_of k r
+  end.
 Definition szero (n : Z) : sval := if is_strname n then SStr (0, 0) else SNum 0.
 
 Record cfg := mk_cfg {
@@ -69,6 +75,7 @@ Inductive stmt :=
 | SDim (n d : Z)
 | SClear (k : option Z)
 | SDef (f : Z) (params : list Z) (body : expr)
+| SDeftype (t lo hi : Z)                               (* DEFINT / DEFSNG / DEFDBL / DEFSTR lo-hi (letter indices) *)
 | SInput (vars : list lval) (typed : list inval)      (* INPUT v1, v2, ... with the values typed at the prompt *).
 
 Record state := mk_state {
@@ -84,25 +91,27 @@ Record state := mk_state {
   stack : list (list obj);             (* DataSegment._stack, innermost frame first, top of a frame first *)
   tvals : list obj;                    (* DataSegment.temp_values, most recently added first *)
   fns : list (Z * (list Z * expr));    (* UserFunctionManager._fn_dict *)
-  active : list Z                      (* functions whose _is_parsing flag is set *)
+  active : list Z;                     (* functions whose _is_parsing flag is set *)
+  deft : list (Z * (Z * Z))            (* DEFINT/DEFSNG/DEFDBL/DEFSTR ranges (lo, (hi, type)), latest first *)
 }.
 
 Definition top (st : state) : Z := totmem st - stksz st - 2.          (* stack_start() *)
 Definition free (c : cfg) (st : state) : Z := cur st - var_start c - scur st - acur st.   (* _get_free() *)
 
 (* ---------- state updates ---------- *)
-Definition set_strs st x := mk_state x (cur st) (tmp st) (totmem st) (stksz st) (scal st) (scur st) (arrs st) (acur st) (stack st) (tvals st) (fns st) (active st).
-Definition set_cur st x := mk_state (strs st) x (tmp st) (totmem st) (stksz st) (scal st) (scur st) (arrs st) (acur st) (stack st) (tvals st) (fns st) (active st).
-Definition set_tmp st x := mk_state (strs st) (cur st) x (totmem st) (stksz st) (scal st) (scur st) (arrs st) (acur st) (stack st) (tvals st) (fns st) (active st).
-Definition set_scal st x := mk_state (strs st) (cur st) (tmp st) (totmem st) (stksz st) x (scur st) (arrs st) (acur st) (stack st) (tvals st) (fns st) (active st).
-Definition set_scur st x := mk_state (strs st) (cur st) (tmp st) (totmem st) (stksz st) (scal st) x (arrs st) (acur st) (stack st) (tvals st) (fns st) (active st).
-Definition set_arrs st x := mk_state (strs st) (cur st) (tmp st) (totmem st) (stksz st) (scal st) (scur st) x (acur st) (stack st) (tvals st) (fns st) (active st).
-Definition set_acur st x := mk_state (strs st) (cur st) (tmp st) (totmem st) (stksz st) (scal st) (scur st) (arrs st) x (stack st) (tvals st) (fns st) (active st).
-Definition set_stack st x := mk_state (strs st) (cur st) (tmp st) (totmem st) (stksz st) (scal st) (scur st) (arrs st) (acur st) x (tvals st) (fns st) (active st).
-Definition set_tvals st x := mk_state (strs st) (cur st) (tmp st) (totmem st) (stksz st) (scal st) (scur st) (arrs st) (acur st) (stack st) x (fns st) (active st).
-Definition set_fns st x := mk_state (strs st) (cur st) (tmp st) (totmem st) (stksz st) (scal st) (scur st) (arrs st) (acur st) (stack st) (tvals st) x (active st).
-Definition set_active st x := mk_state (strs st) (cur st) (tmp st) (totmem st) (stksz st) (scal st) (scur st) (arrs st) (acur st) (stack st) (tvals st) (fns st) x.
-Definition set_totmem st x := mk_state (strs st) (cur st) (tmp st) x (stksz st) (scal st) (scur st) (arrs st) (acur st) (stack st) (tvals st) (fns st) (active st).
+Definition set_strs st x := mk_state x (cur st) (tmp st) (totmem st) (stksz st) (scal st) (scur st) (arrs st) (acur st) (stack st) (tvals st) (fns st) (active st) (deft st).
+Definition set_cur st x := mk_state (strs st) x (tmp st) (totmem st) (stksz st) (scal st) (scur st) (arrs st) (acur st) (stack st) (tvals st) (fns st) (active st) (deft st).
+Definition set_tmp st x := mk_state (strs st) (cur st) x (totmem st) (stksz st) (scal st) (scur st) (arrs st) (acur st) (stack st) (tvals st) (fns st) (active st) (deft st).
+Definition set_scal st x := mk_state (strs st) (cur st) (tmp st) (totmem st) (stksz st) x (scur st) (arrs st) (acur st) (stack st) (tvals st) (fns st) (active st) (deft st).
+Definition set_scur st x := mk_state (strs st) (cur st) (tmp st) (totmem st) (stksz st) (scal st) x (arrs st) (acur st) (stack st) (tvals st) (fns st) (active st) (deft st).
+Definition set_arrs st x := mk_state (strs st) (cur st) (tmp st) (totmem st) (stksz st) (scal st) (scur st) x (acur st) (stack st) (tvals st) (fns st) (active st) (deft st).
+Definition set_acur st x := mk_state (strs st) (cur st) (tmp st) (totmem st) (stksz st) (scal st) (scur st) (arrs st) x (stack st) (tvals st) (fns st) (active st) (deft st).
+Definition set_stack st x := mk_state (strs st) (cur st) (tmp st) (totmem st) (stksz st) (scal st) (scur st) (arrs st) (acur st) x (tvals st) (fns st) (active st) (deft st).
+Definition set_tvals st x := mk_state (strs st) (cur st) (tmp st) (totmem st) (stksz st) (scal st) (scur st) (arrs st) (acur st) (stack st) x (fns st) (active st) (deft st).
+Definition set_fns st x := mk_state (strs st) (cur st) (tmp st) (totmem st) (stksz st) (scal st) (scur st) (arrs st) (acur st) (stack st) (tvals st) x (active st) (deft st).
+Definition set_active st x := mk_state (strs st) (cur st) (tmp st) (totmem st) (stksz st) (scal st) (scur st) (arrs st) (acur st) (stack st) (tvals st) (fns st) x (deft st).
+Definition set_deft st x := mk_state (strs st) (cur st) (tmp st) (totmem st) (stksz st) (scal st) (scur st) (arrs st) (acur st) (stack st) (tvals st) (fns st) (active st) x.
+Definition set_totmem st x := mk_state (strs st) (cur st) (tmp st) x (stksz st) (scal st) (scur st) (arrs st) (acur st) (stack st) (tvals st) (fns st) (active st) (deft st).
 
 (* ---------- association lists keyed by Z (Python dicts in insertion order) ---------- *)
 Fixpoint lookup {A} (k : Z) (l : list (Z * A)) : option A :=
@@ -509,7 +518,7 @@ Definition clear_all (st : state) : state :=
   let st1 := set_scal (set_scur st 0) [] in
   let st2 := set_arrs (set_acur st1 0) [] in
   let st3 := set_cur (set_strs st2 []) (top st2) in
-  set_fns (set_tvals st3 []) [].
+  set_deft (set_fns (set_tvals st3 []) []) [].
 
 Definition init_state (totmem stksz : Z) : state :=
-  mk_state [] (totmem - stksz - 2) None totmem stksz [] 0 [] 0 [] [] [] [].
+  mk_state [] (totmem - stksz - 2) None totmem stksz [] 0 [] 0 [] [] [] [] [].
